@@ -206,7 +206,7 @@ PROPS["C12"] = W([G_ENF, PLAN_ENF, PLAN_ENF, PLAN_ENF], 800, 30000,
 PROPS["C14"] = W([PLAN_TETRI_G, PLAN_TETRI_C, PLAN_ILP_GOODPUT], 600, 20000,
                  FP_RULE % "a planner left an offered task unplaced on an instance inside the enumeration bound "
                  "(<=4 offered tasks, <=2 workers) so that the reference planner had to search",
-                 lambda r: r["probes"].get("c14_maximality_checked", 0) + r["probes"].get("c14_goodput_checked", 0) > 0,
+                 lambda r: r["probes"].get("c14_maximality_checked", 0) + r["probes"].get("c14_ilp_goodput_checked", 0) > 0,
                  real=_PLAN_REAL, stub=_PLAN_STUB[:1], per_run_timeout=120)
 
 CW = {"profile": "clockwork", "opts": {}}
